@@ -1876,7 +1876,11 @@ class _FormatInferInstance(Visitor):
             (over_pos or over_neg)
             and getattr(resolved, 'overflow', None) is OverflowMode.WRAP
         )
-        if exact.prec > scope_af.prec or wraps:
+        # ... and representable also needs F's quantum to be no finer than
+        # C's: 0.875 has three significant bits, but an integer context rounds
+        # it up to 1, past the bound
+        finer = exact.exp < scope_af.exp
+        if exact.prec > scope_af.prec or finer or wraps:
             pos_bound = scope_af.pos_bound
             neg_bound = scope_af.neg_bound
         else:
